@@ -643,6 +643,9 @@ func (e *Engine) verifyFunction(key string, ct *Contract) (res *FnResult) {
 	for _, c := range ct.Requires {
 		fc.assume(st, fc.guarded(func() string { return fc.hyp(env, c.E) }, c))
 	}
+	for _, c := range ct.Reveals {
+		fc.assume(st, fc.guarded(func() string { return env.revealSpec(c.E) }, c))
+	}
 	for _, c := range ct.Domain {
 		fc.assume(st, fc.guarded(func() string { return fc.hyp(env, c.E) }, c))
 		fc.note("%s is verified only for inputs with: %s", shortKey(key), c.Src)
